@@ -343,7 +343,7 @@ def run(tier, seed):
     # fine, being refused is fine; the ~1 % that read differently are judged by the segmentation oracle
     names = [n for n in sorted(R.NAME2UNITS) if R.typeable(n)]
     with Driver(bins["rel"]) as d:
-        rep = d.call({"op": "c05_concat", "a": words if tier == "thorough" else [w for w in words if len(w) <= 5], "b": names, "threads": NCPU}, timeout=3600)
+        rep = d.call({"op": "c05_concat", "a": words, "b": names, "threads": NCPU}, timeout=3600)
     acc.counters["concat_sweep_words"] = rep["pairs"]
     acc.counters["concat_sweep_accepted"] = rep["accepted"]
     acc.counters["concat_sweep_same_as_product"] = rep["agree_with_product"]
